@@ -126,7 +126,7 @@ Qed.
 Lemma accept1_st_pure PDF dom x cand (s : st) :
   accept1_st Ops (lift1 PDF) dom x cand s = Ok (accept1 Ops PDF dom x cand, s).
 Proof.
-  unfold accept1_st, accept1, lift1. destruct dom as [[lo hi]|]; simpl.
+  unfold accept1_st, inside1, accept1, lift1. destruct dom as [[lo hi]|]; simpl.
   - destruct (nltb Ops cand lo || ngtb Ops cand hi); reflexivity.
   - reflexivity.
 Qed.
@@ -160,7 +160,7 @@ Qed.
 Lemma accept2_st_pure PDF dom x cand (s : st) :
   accept2_st Ops (lift2 PDF) dom x cand s = Ok (accept2 Ops PDF dom x cand, s).
 Proof.
-  unfold accept2_st, accept2, lift2. destruct dom as [[[[x0 x1] y0] y1]|]; simpl.
+  unfold accept2_st, inside2, accept2, lift2. destruct dom as [[[[x0 x1] y0] y1]|]; simpl.
   - destruct (nltb Ops (fst cand) x0 || ngtb Ops (fst cand) x1 || nltb Ops (snd cand) y0 || ngtb Ops (snd cand) y1); reflexivity.
   - reflexivity.
 Qed.
